@@ -6,6 +6,7 @@ import (
 	"sort"
 	"strconv"
 	"strings"
+	"sync/atomic"
 	"testing"
 	"time"
 
@@ -391,23 +392,31 @@ func runCase(t *rapid.T, replay []step) {
 				ackErr <- ""
 			}()
 			time.Sleep(150 * time.Millisecond) // nobody reads: socket buffers and the server's queues fill up
+			// From here on every subscriber is read until the very end (a reader that stopped early would stall the
+			// server's delivery and, through it, the publisher): the readers run until they are told to stop.
 			type res struct {
 				got     []string
 				problem string
 			}
+			stop := make(chan struct{})
 			results := make([]chan res, len(w.subs))
+			counts := make([]atomic.Int64, len(w.subs))
 			for i := range w.subs {
 				i := i
 				results[i] = make(chan res, 1)
-				want := w.tab[i].matches(ch) * st.Count
 				go func() {
 					var got []string
-					for len(got) < want {
-						v, raw, err := w.subs[i].ReadValue(15 * time.Second)
+					for {
+						v, raw, err := w.subs[i].ReadValue(200 * time.Millisecond)
 						if err != nil {
 							if sut.IsTimeout(err) {
-								results[i] <- res{got, ""} // judged below: some message is missing
-								return
+								select {
+								case <-stop:
+									results[i] <- res{got, ""}
+									return
+								default:
+									continue
+								}
 							}
 							results[i] <- res{got, fmt.Sprintf("subscriber %d: malformed frame %q: %v", i, trunc(string(raw), 120), err)}
 							return
@@ -419,28 +428,43 @@ func runCase(t *rapid.T, replay []step) {
 						}
 						if p := f[len(f)-1]; !strings.HasPrefix(p, "s") {
 							got = append(got, p)
+							counts[i].Add(1)
 						}
 					}
-					results[i] <- res{got, ""}
 				}()
 			}
+			ackMsg := <-ackErr
+			<-sendErr
+			// every publish has been answered: wait until the deliveries have arrived, or nothing has moved for a while
+			total := func() (n int64) {
+				for i := range counts {
+					n += counts[i].Load()
+				}
+				return
+			}
+			var want int64
+			for i := range w.subs {
+				want += int64(w.tab[i].matches(ch) * st.Count)
+			}
+			last, lastMove := total(), time.Now()
+			for total() < want && time.Since(lastMove) < sut.Patience(5*time.Second) {
+				time.Sleep(20 * time.Millisecond)
+				if n := total(); n != last {
+					last, lastMove = n, time.Now()
+				}
+			}
+			time.Sleep(50 * time.Millisecond) // anything beyond the expected number would follow closely
+			close(stop)
 			var all []res
 			for i := range w.subs {
 				all = append(all, <-results[i])
 			}
-			if msg := <-ackErr; msg != "" {
-				fail("%s", msg)
+			if ackMsg != "" {
+				fail("%s", ackMsg)
 			}
-			<-sendErr
 			for i, r := range all {
 				if r.problem != "" {
 					fail("%s (flood of %d messages to %q)", r.problem, st.Count, ch)
-				}
-				// nothing beyond the expected number may follow
-				if extra, _, err := w.subs[i].ReadValue(20 * time.Millisecond); err == nil {
-					if kind, _ := frame(extra); kind == "message" || kind == "pmessage" {
-						r.got = append(r.got, "(one more)")
-					}
 				}
 				if problem := judge(sent, r.got, w.tab[i].matches(ch)); problem != "" {
 					fail("subscriber %d (%d matching subscription(s) for %q), flood of %d messages of 1 KB published while nobody was reading for 150 ms: %s", i, w.tab[i].matches(ch), ch, st.Count, trunc(problem, 200))
